@@ -14,6 +14,9 @@ const NAMES: [&str; 2] = ["x", "y"];
 #[derive(Clone, Debug, Serialize, Deserialize)]
 pub enum S {
     Assign(usize),
+    /// assign the integer 7 (what the enumerated loops bind first) / the string every include passes
+    AssignSeven(usize),
+    AssignArg(usize),
     Incr(usize),
     Decr(usize),
     Include(usize),
@@ -28,26 +31,29 @@ fn simple(i: u64) -> S {
         0 => S::Assign(n),
         1 => S::Incr(n),
         2 => S::Decr(n),
-        _ => S::Include(n),
+        3 => S::Include(n),
+        4 => S::AssignSeven(n),
+        _ => S::AssignArg(n),
     }
 }
+const SIMPLE: u64 = 12;
 
-/// 62 statement options: 8 simple + 3 nesting kinds x 2 names x (empty body | one of 8 simple)
+/// 90 statement options: 12 simple + 3 nesting kinds x 2 names x (empty body | one of 12 simple)
 fn option(i: u64) -> S {
-    if i < 8 {
+    if i < SIMPLE {
         return simple(i);
     }
-    let i = i - 8;
-    let inner = i % 9;
+    let i = i - SIMPLE;
+    let inner = i % (SIMPLE + 1);
     let body = if inner == 0 { vec![] } else { vec![simple(inner - 1)] };
-    let n = ((i / 9) % 2) as usize;
-    match i / 18 {
+    let n = ((i / (SIMPLE + 1)) % 2) as usize;
+    match i / (2 * (SIMPLE + 1)) {
         0 => S::Capture(n, body),
         1 => S::For(n, body),
         _ => S::If(n, body),
     }
 }
-const OPTIONS: u64 = 62;
+const OPTIONS: u64 = SIMPLE + 3 * 2 * (SIMPLE + 1);
 
 fn lower(stmts: &[S], site: &mut u32) -> Vec<Node> {
     let mut out = Vec::new();
@@ -56,9 +62,11 @@ fn lower(stmts: &[S], site: &mut u32) -> Vec<Node> {
         let id = *site;
         out.push(match s {
             S::Assign(n) => Node::Assign { name: NAMES[*n].into(), e: Expr::str(&format!("a{id}")), filters: vec![], t: Tr::PLAIN },
+            S::AssignSeven(n) => Node::Assign { name: NAMES[*n].into(), e: Expr::int(7), filters: vec![], t: Tr::PLAIN },
+            S::AssignArg(n) => Node::Assign { name: NAMES[*n].into(), e: Expr::str("arg"), filters: vec![], t: Tr::PLAIN },
             S::Incr(n) => Node::Incr { name: NAMES[*n].into(), t: Tr::PLAIN },
             S::Decr(n) => Node::Decr { name: NAMES[*n].into(), t: Tr::PLAIN },
-            S::Include(n) => Node::Include { name: Expr::str("p"), args: vec![(NAMES[*n].to_string(), Expr::str(&format!("g{id}")))], t: Tr::PLAIN },
+            S::Include(n) => Node::Include { name: Expr::str("p"), args: vec![(NAMES[*n].to_string(), Expr::str("arg"))], t: Tr::PLAIN },
             S::Capture(n, b) => {
                 // a capture holding nothing prints nothing and must still (re)bind its name
                 let mut body = if b.is_empty() { vec![] } else { vec![Node::Text(format!("c{id}"))] };
@@ -86,6 +94,9 @@ fn partial_p() -> Vec<Node> {
     let mut v = vec![Node::Text("(p:".into())];
     v.extend(progs::probes(&NAMES));
     v.push(Node::Assign { name: "y".into(), e: Expr::str("py"), filters: vec![], t: Tr::PLAIN });
+    v.extend(progs::probes(&NAMES));
+    // an assignment equal to what the include argument currently shows for x must still bind globally
+    v.push(Node::Assign { name: "x".into(), e: Expr::str("arg"), filters: vec![], t: Tr::PLAIN });
     v.extend(progs::probes(&NAMES));
     v.push(Node::Text(")".into()));
     v
@@ -226,10 +237,10 @@ fn rand_oracle(sc: &Scenario, obs: &mut Obs) -> Check {
 }
 
 pub fn run(ctx: &Ctx) {
-    ctx.set_rule("E2: every program of <= 2 statements (thorough: <= 3; quick adds a strided slice of length 3) over names {x, y} from 62 statement forms (assign, increment, decrement, include-with-argument, and capture / for / if holding nothing or one simple statement) x all 9 ways the caller binds each name (unbound / string / object with a member); the probe [{% if n.a %}obj:{{ n.a }}{% elsif n %}{{ n }}{% else %}~{% endif %}] for every name is inserted before and after every statement and at the start of every body, also inside the included partial; E1: random programs to depth 4 over {x, y, z} with loop variables named like data names, capture, counters, include of two partials. Oracle: reference interpreter; caller's Object deep-compared after the render. Non-trivial = some probe found the same name bound in >= 2 layers (measured by the reference interpreter, per layer pair); distinct by program.");
+    ctx.set_rule("E2: every program of <= 2 statements (thorough: <= 3; quick adds a strided slice of length 3) over names {x, y} from 90 statement forms (assign of a fresh value / of the value a loop or include argument currently shows, increment, decrement, include-with-argument, and capture / for / if holding nothing or one simple statement) x all 9 ways the caller binds each name (unbound / string / object with a member); the probe [{% if n.a %}obj:{{ n.a }}{% elsif n %}{{ n }}{% else %}~{% endif %}] for every name is inserted before and after every statement and at the start of every body, also inside the included partial; E1: random programs to depth 4 over {x, y, z} with loop variables named like data names, capture, counters, include of two partials. Oracle: reference interpreter; caller's Object deep-compared after the render. Non-trivial = some probe found the same name bound in >= 2 layers (measured by the reference interpreter, per layer pair); distinct by program.");
     for len in 1..=2usize {
         ctx.exhaustive(&format!("programs_len{len}"), 9 * OPTIONS.pow(len as u32), move |i| seq_nth(i, len), enum_oracle);
     }
-    ctx.strided("programs_len3", 9 * OPTIONS.pow(3), ctx.pick(29, 1), |i| seq_nth(i, 3), enum_oracle);
+    ctx.strided("programs_len3", 9 * OPTIONS.pow(3), ctx.pick(89, 1), |i| seq_nth(i, 3), enum_oracle);
     ctx.random("random_programs", ctx.pick(40_000, 600_000), rand_strategy, rand_oracle);
 }
